@@ -107,7 +107,7 @@ void MatrixPreprocess(matrix *orig,
 
     if(colscaling->size > 0){
       for(j = 0; j < trans->col; j++){
-        if(FLOAT_EQ(colscaling->data[j], 0.f, 1e-2)){
+        if(FLOAT_EQ(colscaling->data[j], 0.f, EPSILON)){
           for(i = 0; i < trans->row; i++){
             trans->data[i][j] = 0.f;
           }
